@@ -1038,14 +1038,15 @@ void run_case_convert(uint64_t idx, Rng& r) {
 // REQ 1024 / 512) with a float stream of more than three exact capacities, observed around the point where the first
 // compaction must happen, plus a merge of two exact sketches whose union crosses that point.
 template<typename F>
-void run_case_largek(uint64_t idx, Rng& r) {
+void run_case_largek(uint64_t idx, Rng& r, bool force_max) {
   typedef typename F::template SK<float> SK;
   const std::string fam = F::name();
   const uint32_t s1 = static_cast<uint32_t>(r.next()), s2 = static_cast<uint32_t>(r.next());
   datasketches::random_utils::rand.seed(s1);
   datasketches::random_utils::random_bit.seed(s2);
   const typename F::Cfg cfg = F::cfg(r);
-  const bool kmax = r.chance(0.7);
+  const bool kmax_draw = r.chance(0.7);
+  const bool kmax = force_max || kmax_draw;   // every other large-k case is at the maximum by construction: the coverage floor must not depend on the seed
   const uint32_t k = F::large_k(kmax);
   const uint64_t cap = F::exact_cap(k);
   const uint64_t total = 3 * (cap + 1) + r.below(cap / 8 + 100);
@@ -1096,7 +1097,7 @@ template<typename F, typename K>
 void run_one(uint64_t idx, Rng& r, uint64_t ntypes) {
   const uint64_t slot = (idx / ntypes) % 20;
   if (std::is_same<K, float>::value && (idx / ntypes) % 400 == 9) {
-    if constexpr (std::is_same<K, float>::value) run_case_largek<F>(idx, r);
+    if constexpr (std::is_same<K, float>::value) run_case_largek<F>(idx, r, ((idx / ntypes) / 400) % 2 == 0);
   }
   else if (slot == 7) run_case_huge<F, K>(idx, r);
   else if (slot == 3 || slot == 13) {
